@@ -20,8 +20,15 @@ EVIDENCE = {
             'over a fake dongle and an ESB+safelink peer; 1-3 application threads submit uniquely numbered packets at '
             'seeded instants, the peer queues uniquely numbered downlink packets, a receiver thread drains receive_packet; '
             'every air transmission gets an outcome {ok, uplink lost, ack lost} from seeded rates with bursts, plus USB '
-            'errors; knobs: retries before disconnect, ARC, rate limit, safelink capable or not.',
-    'directed': 'all 3^k per-transmission outcome prefixes (k = 5 quick / 7 thorough) with ARC 0, then a clean channel',
+            'errors; knobs: retries before disconnect, ARC, rate limit, safelink capable or not.  30 % of the random runs '
+            'are multi-link (checks/c01m.py): 2-4 RadioDriver links share the one dongle through RadioManager / '
+            '_SharedRadio, each to its own peer on its own (channel, rate, address) - pairwise sharing the channel or the '
+            'address -; one peer may go out of range, one link may be closed or closed and re-opened mid-run, or all links '
+            'are closed (dongle released) and re-opened; the single-link oracle is applied per link and session on the '
+            'transfers made while the dongle was tuned to that peer, plus isolation (no packet of link A at peer B or out '
+            'of link B) and per-link liveness after the faults stop.',
+    'directed': 'all 3^k per-transmission outcome prefixes (k = 5 quick / 7 thorough) with ARC 0, then a clean channel; '
+                'two links on one dongle with all 3^k outcome prefixes (k = 3 / 5) applied to their interleaved transfers',
     'real': ['RadioDriver', 'RadioManager', '_SharedRadio', '_SharedRadioInstance', 'Crazyradio', '_RadioDriverThread',
              'RadioLinkStatistics', 'CRTPPacket', 'queue.Queue / Semaphore logic (CPython source on simulated locks)'],
     'stub': ['FakeDongle (pyusb device: vendor requests, bulk write/read, ARC retries, status byte)',
@@ -39,6 +46,9 @@ EVIDENCE = {
 def gen(seed):
     rng = random.Random(H(seed, 'plan'))
     knobs = common.sched_knobs(rng)
+    if rng.random() < 0.3:
+        from . import c01m
+        return c01m.gen(seed, rng, knobs)
     addr = ''.join(rng.choice('0123456789ABCDEFabcdef') for _ in range(rng.choice([1, 4, 9, 10, 10])))
     knobs.update({
         'channel': rng.randrange(126), 'rate': rng.choice(['250K', '1M', '2M']), 'addr': addr,
@@ -87,10 +97,14 @@ def directed(tier):
             'rate_limit': None, 'safelink': True, 'airtime': 0.001, 'rates': {}, 'forced_after_negotiation': list(prefix)},
             'ops': [['up', 0, 0.0, 3, 0, 2], ['up', 0, 0.0, 3, 1, 3], ['up', 1, 0.001, 7, 0, 1],
                     ['down', 0.0, 5, 2, 4], ['down', 0.0, 2, 1, 2], ['down', 0.004, 0, 0, 6]]})
-    return plans
+    from . import c01m
+    return plans + c01m.directed(tier)
 
 
 def execute(ctx):
+    if ctx.plan.get('links'):
+        from . import c01m
+        return c01m.execute(ctx)
     import cflib.crtp.radiodriver as rd
     from cflib.crtp.crtpstack import CRTPPacket
     plan = ctx.plan
